@@ -209,14 +209,11 @@ impl ProgressDrawTarget {
         match self.kind {
             TargetKind::Term { .. } => {}
             TargetKind::Multi { idx, ref state, .. } => {
-                let state = state.write().unwrap();
-                let _ = Drawable::Multi {
-                    state,
-                    idx,
-                    force_draw: true,
-                    now,
-                }
-                .clear();
+                // The bar leaves the `MultiProgress`: free its slot (an emptied slot left in the
+                // ordering would still count as a member) and take its lines off the screen
+                let mut state = state.write().unwrap();
+                state.remove_idx(idx);
+                let _ = state.draw(true, None, now);
             }
             TargetKind::Hidden => {}
             TargetKind::TermLike { .. } => {}
